@@ -43,7 +43,7 @@ def isEntraitMessage (m : String) : Bool :=
 def outcomesAgree (m : Outcome) (r : Real) : Bool :=
   match m, r with
   | .ok _, .ok .. => true
-  | .diag _, .diag msgs _ => msgs.length == 1     -- the wording is compared separately (relabelling, see Obs.evalC15)
+  | .diag _, .diag msgs _ => !msgs.isEmpty        -- wording and place of the first one are compared separately (Obs.evalC15)
   | .synErr, .diag msgs _ => !(msgs.any isEntraitMessage)
   | .panic _, .panic _ => true
   | _, _ => false
